@@ -52,6 +52,9 @@ void reset_case_state();           // engine-internal: trace, tick (called befor
 int tick();
 // general-purpose counters, reset per case, invisible to sanitizers (instance counting etc.)
 long slot_add(int i, long d); long slot_get(int i); void slot_set(int i, long v);
+// live memory ranges: add -> 1 ok, 0 overlaps a live range; del -> 1 ok, 0 unknown, 2 size mismatch
+int range_add(const void *p, size_t n); int range_del(const void *p, size_t n); int range_count();
+void measure_begin(); unsigned long measure_end(); unsigned long measured_so_far();
 
 // ---- allocation accounting (alloc.cpp) ----
 struct AllocCounters { unsigned long news, deletes, exempt_news, exempt_deletes; unsigned long bytes; };
